@@ -54,6 +54,13 @@ LEVEL_TEXT += (
     "(skv/invariance.py) instead of a syntactic test; tag arrays built "
     "from run-time lists carry an integer dtype; the extrusion routines "
     "must read the cells of the segment mesh (open finding).")
+LEVEL_TEXT += (
+    " Added in the third round (review of the fix commits, DESIGN.md "
+    "9.6): "
+    "OrientedBoundary indexes its flags with the facets; collections of "
+    "facet selections keep the orientation of their parts; the merge "
+    "key of Mesh.__add__ depends on the connectivity (tolerance below "
+    "the cell size).")
 LEVEL_NOTE = ("Trusted: numpy hstack/unique/intersect1d semantics; "
               "order-preserving vertex compaction keeps the lexicographic "
               "facet order.")
